@@ -44,7 +44,7 @@ def main(argv=None):
     # every history is a 4-tuple (symbolic ops, universe, None, layer); layer = calls on the storage object, or
     # calls through the public Datastore / Bucket API
     n_random = 800 if ck.tier == "quick" else 40000
-    mal = sh.malformed_boundary_histories()
+    mal = sh.malformed_boundary_histories() + sh.recreate_histories()
     hists = ([(sym, univ, None, "storage") for sym, univ in mal + sh.boundary_histories()[::6]]
              + [(sym, univ, None, "datastore") for sym, univ in mal[1::2]]
              + [(sym, univ, None, layer) for layer in sh.LAYERS
